@@ -289,7 +289,7 @@ func (e *Env) c20Converters(cmdPkg *ssa.Package, flatten, sortfn *ssa.Function) 
 	p := e.P
 	// helpers are looked through, the two pipeline stages themselves stay visible as calls
 	sy := p.NewSymbolizer(func(f *ssa.Function) bool {
-		return (f.Object() == nil || !f.Object().Exported()) && f != flatten && f != sortfn && f.Pkg == cmdPkg
+		return isPrivateFunc(f) && f != flatten && f != sortfn && f.Pkg == cmdPkg
 	})
 	// template constants of the package
 	consts := map[string]string{}
